@@ -9,11 +9,13 @@
 package main
 
 import (
+	"bufio"
 	"encoding/binary"
 	"fmt"
 	"io"
 	"math/rand"
 	"net"
+	"net/http"
 	"os"
 	"path/filepath"
 	"sort"
@@ -21,9 +23,11 @@ import (
 	"time"
 
 	"mangosverif/coqgen"
+	"mangosverif/wire"
 
 	"go.nanomsg.org/mangos/v3"
 	"go.nanomsg.org/mangos/v3/transport"
+	"go.nanomsg.org/mangos/v3/transport/ws"
 )
 
 type addr struct{}
@@ -378,6 +382,18 @@ func runScenario(r *rand.Rand, idx int) string {
 	}
 	wg.Wait()
 	closeOK := withWatchdog(3*time.Second, func() { hs.Close() })
+	// Close must abort the handshakes still in flight: their connections get closed
+	if closeOK {
+		for _, c := range cases {
+			if c.stalled && c.conn != nil {
+				select {
+				case <-c.conn.closed:
+				case <-time.After(300 * time.Millisecond):
+					closeOK = false
+				}
+			}
+		}
+	}
 	for _, c := range cases {
 		if c.conn == nil { // never started: an earlier Start did not return
 			c.conn = newChunkConn(nil, nil, false)
@@ -397,6 +413,100 @@ func runScenario(r *rand.Rand, idx int) string {
 			coqgen.Hex(c.incoming), clist(c.chunks), coqgen.Bool(c.stalled), coqgen.Bool(c.hsOK), coqgen.Hex(wrote), coqgen.List(ds), c.end))
 	}
 	return fmt.Sprintf("(%s, %s, %s, %s)", coqgen.List(items), clist(fails), coqgen.Bool(blocked), coqgen.Bool(closeOK))
+}
+
+// ---- registration racing Close ------------------------------------------------------------------------------
+// The schedules below are the ones the static check-then-register rule (Model/AtomCfg.v) forbids: the caller has
+// passed (or never made) its "closed?" check, Close runs to completion, then the object is registered.
+
+// lateStart: a listener's accept loop hands a freshly accepted connection to the handshaker just after Close.
+// The peer never sends its header.  Returns: was the connection closed (within 500 ms)?
+func lateStart(ipc bool) bool {
+	hs := transport.NewConnHandshaker()
+	hs.Close()
+	c := newChunkConn(nil, nil, true)
+	pi := transport.ProtocolInfo{Self: 0x50, Peer: 0x51}
+	var p transport.ConnPipe
+	if ipc {
+		p = transport.NewConnPipeIPC(c, pi)
+	} else {
+		p = transport.NewConnPipe(c, pi)
+	}
+	if !withWatchdog(2*time.Second, func() { hs.Start(p) }) {
+		return false
+	}
+	select {
+	case <-c.closed:
+		return true
+	case <-time.After(500 * time.Millisecond):
+		_ = c.Close()
+		return false
+	}
+}
+
+type gateWriter struct {
+	hdr     http.Header
+	conn    net.Conn
+	entered chan struct{}
+	gate    chan struct{}
+	code    int
+}
+
+func (g *gateWriter) Header() http.Header         { return g.hdr }
+func (g *gateWriter) Write(b []byte) (int, error) { return len(b), nil }
+func (g *gateWriter) WriteHeader(c int)           { g.code = c }
+func (g *gateWriter) Hijack() (net.Conn, *bufio.ReadWriter, error) {
+	close(g.entered)
+	<-g.gate
+	return g.conn, bufio.NewReadWriter(bufio.NewReader(g.conn), bufio.NewWriter(g.conn)), nil
+}
+
+// lateUpgrade: a websocket upgrade is in flight (ServeHTTP has seen the listener running) when the listener is closed.
+// Returns: did ServeHTTP return (within 1 s of the upgrade completing), and was the connection closed?
+func lateUpgrade() (returned, closed bool, note string) {
+	sock := wire.New("pull")
+	defer sock.Close()
+	tl, err := ws.Transport.NewListener("ws://127.0.0.1:1/late", sock)
+	if err != nil {
+		return false, false, "NewListener: " + err.Error()
+	}
+	hv, err := tl.GetOption(ws.OptionWebSocketHandler)
+	if err != nil {
+		return false, false, "handler: " + err.Error()
+	}
+	h := hv.(http.Handler)
+	srv, cli := net.Pipe()
+	go func() { _, _ = io.Copy(io.Discard, cli) }() // the client reads the 101 response
+	req, _ := http.NewRequest("GET", "http://127.0.0.1:1/late", nil)
+	req.Header.Set("Connection", "Upgrade")
+	req.Header.Set("Upgrade", "websocket")
+	req.Header.Set("Sec-WebSocket-Version", "13")
+	req.Header.Set("Sec-WebSocket-Key", "dGhlIHNhbXBsZSBub25jZQ==")
+	req.Header.Set("Sec-WebSocket-Protocol", "pull.sp.nanomsg.org")
+	gw := &gateWriter{hdr: http.Header{}, conn: srv, entered: make(chan struct{}), gate: make(chan struct{})}
+	done := make(chan struct{})
+	go func() { h.ServeHTTP(gw, req); close(done) }()
+	select {
+	case <-gw.entered:
+	case <-done:
+		return true, true, fmt.Sprintf("upgrade refused early (status %d)", gw.code)
+	case <-time.After(2 * time.Second):
+		return false, false, "upgrade never reached Hijack"
+	}
+	_ = tl.Close() // Close runs to completion while the upgrade is in flight
+	close(gw.gate)
+	select {
+	case <-done:
+		returned = true
+	case <-time.After(time.Second):
+	}
+	// closed? a write on the client side of a closed pipe fails at once
+	_ = cli.SetWriteDeadline(time.Now().Add(200 * time.Millisecond))
+	_, werr := cli.Write([]byte{0})
+	closed = werr == io.ErrClosedPipe
+	_ = cli.Close()
+	_ = srv.Close()
+	return returned, closed, ""
 }
 
 // send side: what Send writes for a header and a body
@@ -465,11 +575,29 @@ func main() {
 	for i := 0; i < n/4; i++ {
 		ss = append(ss, runSend(r))
 	}
+	var late []string
+	for i := 0; i < 4; i++ {
+		late = append(late, fmt.Sprintf("(%q, %s, true)", []string{"handshaker.Start after Close (tcp)", "handshaker.Start after Close (ipc)"}[i%2], coqgen.Bool(lateStart(i%2 == 1))))
+	}
+	for i := 0; i < 2; i++ {
+		ret, cl, note := lateUpgrade()
+		n := ""
+		if note != "" {
+			n = " (* " + note + " *)"
+			fmt.Fprintln(os.Stderr, "stream: lateUpgrade:", note)
+		}
+		late = append(late, fmt.Sprintf("(%q, %s, %s)%s", "ws upgrade completing after listener Close", coqgen.Bool(ret), coqgen.Bool(cl), n))
+	}
 	const shards = 16
 	for k := 0; k < shards; k++ {
 		w := coqgen.Create(filepath.Join(os.Args[1], fmt.Sprintf("defs_%03d.v", k)))
 		w.Def("hs_scenarios", "list scenario", res[k*n/shards:(k+1)*n/shards])
 		w.Def("send_cases", "list (bool * list (string * string) * string)", ss[k*len(ss)/shards:(k+1)*len(ss)/shards])
+		if k == 0 {
+			w.Def("late_cases", "list (string * bool * bool)", late)
+		} else {
+			w.Def("late_cases", "list (string * bool * bool)", nil)
+		}
 		w.Close()
 	}
 }
